@@ -89,9 +89,78 @@ class DataKinds(Suite):
         return repr(case)
 
 
+class ReadableLinks(Suite):
+    """inspection by readable links (create_readable_filenames), in parameter mode and in name mode: nothing runs,
+    no stored result changes, a later chain loads everything (runtime check; links are outside the store model)"""
+    name = 'readable_links'
+    model = ''
+
+    def gen(self, rng, tier):
+        return [dict(param_mode=pm, data=d, link_name=ln, twice=tw) for pm in (True, False) for d in ('json', 'dir')
+                for ln in (None, 'nice') for tw in (False, True)]
+
+    def run_impl(self, case):
+        import hashlib
+        from pathlib import Path
+        from .. import pipeline as pl
+        from ..suites_chain import K
+        classes = [dict(K(0, 'Src', data=case['data']), name='source'), dict(K(1, 'Tot', meta_inputs=[{'cls': 0}]), name='total')]
+        full = dict(classes=classes, files={'exp.json': {'tasks': ['@M.*']}}, base={'file': 'exp.json'}, context=None)
+
+        def files():
+            return {str(p): hashlib.sha256(p.read_bytes()).hexdigest()[:12] for p in sorted(Path('data').rglob('*'))
+                    if p.is_file() and not p.is_symlink()}
+        with pl.workspace(full) as (d, mod):
+            def chain():
+                return pl.build_config(full, mod).chain(parameter_mode=case['param_mode'])
+            pl.RUNLOG.clear()
+            c1 = chain()
+            v1 = {n: pl.json_safe(str(t.value) if case['data'] == 'dir' and n == 'source' else t.value) for n, t in c1.tasks.items()}
+            runs1 = len(pl.RUNLOG)
+            before = files()
+            for _ in range(2 if case['twice'] else 1):
+                c1.create_readable_filenames(name=case['link_name'])
+            after = files()
+            links = sorted(str(p) for p in Path('data').rglob('*') if p.is_symlink())
+            broken = [l for l in links if not Path(l).exists()]
+            pl.RUNLOG.clear()
+            c2 = chain()
+            has = {n: bool(t.has_data) for n, t in c2.tasks.items()}
+            v2 = {}
+            for n, t in c2.tasks.items():
+                try:
+                    v2[n] = pl.json_safe(str(t.value) if case['data'] == 'dir' and n == 'source' else t.value)
+                except Exception as e:
+                    v2[n] = f'{type(e).__name__}: {e}'[:120]
+            return dict(runs1=runs1, before=before, after=after, links=links, broken=broken, has=has,
+                        runs2=[s for _, s, _ in pl.RUNLOG], same_values=v1 == v2)
+
+    def oracle(self, case, obs):
+        if 'unexpected_exception' in obs:
+            return f'unexpected exception {obs["unexpected_exception"]}: {obs["text"]}'
+        if obs['before'] != obs['after']:
+            gone = sorted(set(obs['before']) - set(obs['after']))
+            return f'{case}: creating readable links changed or removed stored files {gone or "(content changed)"}'
+        if obs['broken']:
+            return f'{case}: readable links do not resolve: {obs["broken"]}'
+        if not all(obs['has'].values()):
+            return f'{case}: after creating readable links a new chain finds no stored result for {[n for n, h in obs["has"].items() if not h]}'
+        if obs['runs2']:
+            return f'{case}: after creating readable links a new chain ran {obs["runs2"]} although every result was stored'
+        if not obs['same_values']:
+            return f'{case}: the values a new chain loads differ from the computed ones'
+        return None
+
+    def nontrivial(self, case, obs):
+        return obs.get('runs1', 0) >= 2
+
+    def key(self, case):
+        return repr(case)
+
+
 class C04(Prop):
     pid = 'C04'
-    suites = [Plain(), Mixed(), DataKinds()]
+    suites = [Plain(), Mixed(), DataKinds(), ReadableLinks()]
     assumptions = ['one-shot data classes (JSON, in-memory); resumable ContinuesData is re-run by design until finished()']
 
 
